@@ -13,7 +13,7 @@ def sweep(ctx, n):
 
     rng, fails, done, kinds = ctx.rng, [], 0, {}
     KINDS = ["cuboid-split", "cuboid-mesh-tetra-triangles", "cylinder-segments", "sphere-dipole", "mesh-converters", "polyline-circle",
-             "polyline-split", "segment-angle-turns", "cuboid-mesh-lattice", "mesh-row", "vertex-touching", "glued"]
+             "polyline-split", "segment-angle-turns", "cuboid-mesh-lattice", "mesh-row", "vertex-touching", "glued", "triangle-split"]
 
     def rel(a, b):
         return float(np.max(np.abs(a - b)) / (np.max(np.abs(b)) + 1e-300))
@@ -261,6 +261,46 @@ def sweep(ctx, n):
                 err = rel(get(pc, obs), get(wc, obs))
                 jw = magpy.getJ(wc, obs)
                 err = max(err, rel(magpy.getJ(pc, obs), jw), float(np.max(np.abs(jw[3:] - ori.apply(pol)))) / (np.max(np.abs(pol)) + 1e-300))
+            elif kind == "triangle-split":
+                # a Triangle sheet cut through a random point of one edge into two Triangles, a Tetrahedron cut through a random point
+                # of one edge into two Tetrahedra (triangle_split_additive / tetra_edge_split_additive): whole = sum of the halves,
+                # far away, close above the sheet's interior, above the cut line, inside either half and next to the cut plane;
+                # lengths 1e-3 ... 1e2.  Observers keep 1e-3 sizes from the sheet: within ~1e-9 sizes of a sheet's interior the
+                # code clamps the solid angle to 0 and the property is FALSE (solid_angle_additive_fails_near_sheet; the fixed
+                # input is the listed finding representation:triangle-split:clamp-band, replayed by oracles/known.py)
+                tsc = 10.0 ** rng.choice([0, 0, -3, -1, 2])
+                tv = nps.uniform(-1, 1, (3, 3)) * tsc
+                while np.linalg.norm(np.cross(tv[1] - tv[0], tv[2] - tv[0])) < 0.2 * tsc**2:
+                    tv = nps.uniform(-1, 1, (3, 3)) * tsc
+                k_ = rng.randrange(3)
+                ta, tb, tc = tv[k_], tv[(k_ + 1) % 3], tv[(k_ + 2) % 3]
+                tt = nps.uniform(0.1, 0.9)
+                tm = ta + tt * (tb - ta)
+                whole = place([magpy.misc.Triangle(vertices=[ta, tb, tc], polarization=pol)])
+                parts = place([magpy.misc.Triangle(vertices=[ta, tm, tc], polarization=pol), magpy.misc.Triangle(vertices=[tm, tb, tc], polarization=pol)])
+                nrm = np.cross(tb - ta, tc - ta)
+                nrm /= np.linalg.norm(nrm)
+                w_ = nps.dirichlet(np.ones(3), 3) @ np.array([ta, tb, tc])
+                cutl = tm + nps.uniform(0.1, 0.9, (2, 1)) * (tc - tm)
+                hgt = 10.0 ** nps.uniform(-3, 0, (5, 1)) * nps.choice([-1, 1], (5, 1)) * tsc
+                local = np.concatenate([far_points(nps, 3, lo=1.5, hi=5) * tsc, np.concatenate([w_, cutl]) + hgt * nrm])
+                obs = ori.apply(local) + pos
+                err = rel(get(parts, obs), get(whole, obs))
+                # the Tetrahedron with apex d over the triangle
+                td = np.array([ta, tb, tc]).mean(axis=0) + nrm * nps.uniform(0.4, 1.2) * tsc * rng.choice([-1, 1])
+                wt = place([magpy.magnet.Tetrahedron(vertices=[ta, tb, tc, td], polarization=pol)])
+                pt = place([magpy.magnet.Tetrahedron(vertices=[ta, tm, tc, td], polarization=pol), magpy.magnet.Tetrahedron(vertices=[tm, tb, tc, td], polarization=pol)])
+                in1 = nps.dirichlet(np.ones(4), 2) @ np.array([ta, tm, tc, td])
+                in2 = nps.dirichlet(np.ones(4), 2) @ np.array([tm, tb, tc, td])
+                cn = np.cross(tc - tm, td - tm)
+                cn /= np.linalg.norm(cn)
+                nearcut = (nps.dirichlet(np.ones(3), 2) @ np.array([tm, tc, td])) + np.array([[1e-3], [-1e-3]]) * tsc * cn
+                local = np.concatenate([far_points(nps, 3, lo=2.5, hi=6) * tsc, in1, in2, nearcut])
+                obs = ori.apply(local) + pos
+                err = max(err, rel(get(pt, obs), get(wt, obs)))
+                jw = magpy.getJ(wt, obs)
+                # (the points next to the cut may lie outside when the cut triangle is a sliver: only the four interior points must have J = pol)
+                err = max(err, rel(magpy.getJ(pt, obs), jw), float(np.max(np.abs(jw[3:7] - ori.apply(pol)))) / (np.max(np.abs(pol)) + 1e-300))
             elif kind == "polyline-circle":
                 nseg = 4000
                 ph = np.linspace(0, 2 * np.pi, nseg + 1)
